@@ -749,6 +749,76 @@ func checkCut(u *universe, h []entry, k int, secondGen bool) *cutResult {
 	return res
 }
 
+// checkLate: a snapshot handle taken at k must be immutable. Server A2 replays h[:k]; snapshot 1 is taken and
+// persisted at once; handle 2 is taken at the same point, then the next `late` entries are applied, and only then is
+// handle 2 persisted. Both streams are restored and every table (+ index, usage, derived, resources) and the read
+// APIs are compared: both sides went through restore, so the known restore mechanisms cancel and ANY difference is
+// state of k+1.. leaking into (or state of k missing from) the snapshot of k. Pure function of (h, k, late).
+func checkLate(u *universe, h []entry, k, late int) (out []finding) {
+	if k+late > len(h) {
+		late = len(h) - k
+	}
+	if late <= 0 {
+		return nil
+	}
+	a := newServer()
+	for _, e := range h[:k] {
+		a.apply(e)
+	}
+	b1bytes, err := a.snapshot()
+	if err != nil {
+		return nil // reported by checkCut
+	}
+	var b2bytes []byte
+	func() {
+		defer func() {
+			if p := recover(); p != nil {
+				err = fmt.Errorf("panic: %v", p)
+			}
+		}()
+		snap, e2 := a.fsm.Snapshot()
+		if e2 != nil {
+			err = e2
+			return
+		}
+		defer snap.Release()
+		for _, e := range h[k : k+late] {
+			a.apply(e)
+		}
+		sk := &sink{}
+		if e2 := snap.Persist(sk); e2 != nil {
+			err = e2
+			return
+		}
+		b2bytes = sk.Bytes()
+	}()
+	if err != nil {
+		return []finding{{"snap:late-persist:persist-error", err.Error()}}
+	}
+	b1, err := restoreServer(b1bytes)
+	if err != nil {
+		return nil
+	}
+	b2, err := restoreServer(b2bytes)
+	if err != nil {
+		return []finding{{"snap:late-persist:restore-error", err.Error()}}
+	}
+	last, _, _ := readStream(b1bytes)
+	var kinds []string
+	for _, e := range h[k : k+late] {
+		kinds = append(kinds, e.desc)
+	}
+	out = compareDumps("snap:late-persist:", dumpServer(b1), dumpServer(b2), last, caseVariants(h[:k]))
+	if len(out) == 0 {
+		out = compareQueries("snap:late-persist:", queries(b1.fsm.State(), u), queries(b2.fsm.State(), u))
+	}
+	for i := range out {
+		out[i].desc = fmt.Sprintf("snapshot handle taken after %d entries, persisted after %d more had been applied (%s) differs from the snapshot persisted at once: %s",
+			k, late, clip(strings.Join(kinds, " ; "), 300), out[i].desc)
+	}
+	return out
+}
+
 // caseVariants: did these entries register two service names / ids that differ by letter case only?
 func caseVariants(h []entry) bool {
 	seen := map[string]string{}
@@ -964,6 +1034,29 @@ func main() {
 				run.Sample(map[string]any{"history": label, "entries": len(h), "cut": k, "snapshot_bytes": res.snapLen,
 					"rows": res.dumpA.rows(), "header_last_index": res.last, "findings": len(res.findings)})
 			}
+			if k < len(h) && (!run.Thorough() || k%3 == 0 || strings.HasPrefix(label, "scenario:")) {
+				late := 1 + int(key[0])%3
+				lf := checkLate(u, h, k, late)
+				run.Tag("late-persist:checked")
+				if k+late <= len(h) {
+					run.Tag("late-persist:next:" + h[k].kind)
+				}
+				for _, f := range lf {
+					run.Tag("finding:" + f.sig)
+					hh := h
+					if k+late < len(hh) {
+						hh = hh[:k+late]
+					}
+					if w := witnesses[f.sig]; w == nil {
+						witnesses[f.sig] = &witness{h: hh, k: k, desc: f.desc, n: 1}
+					} else {
+						w.n++
+						if len(hh) < len(w.h) {
+							w.h, w.k, w.desc = hh, k, f.desc
+						}
+					}
+				}
+			}
 			for _, f := range res.findings {
 				run.Tag("finding:" + f.sig)
 				w := witnesses[f.sig]
@@ -1049,6 +1142,11 @@ func main() {
 	for _, sig := range sigs {
 		w := witnesses[sig]
 		sh, sk := w.h, w.k
+		if strings.HasPrefix(sig, "snap:late-persist:") {
+			// witness = history up to the last late-applied entry; the cut marker is where the handle was taken
+			run.Violate(sig, fmt.Sprintf("%s (seen at %d cuts; witness: %d entries, handle taken after %d)", w.desc, w.n, len(sh), sk), replayOps(sh, sk))
+			continue
+		}
 		if len(sh) > 3 {
 			sh, sk = shrink(u, w.h, w.k, sig, run.Scale(60, 120))
 		} else if !strings.HasPrefix(sig, "snap:post") {
